@@ -156,6 +156,15 @@ def run(ctx):
     for v in core.parse_printed_json(res, tag="REJECT"):
         groups.setdefault(f"ipsc/{v['why']}", []).append(samples[v["idx"]])
     mmdvm_phase(ctx)
+    # growth beyond the statement (spec/MMDVMClient.tla): the Homebrew repeater client, informational only - whatever happens
+    # in it, the verdict on C13 stands
+    try:
+        from harness import growth_mmdvm_client
+        growth_mmdvm_client.phase(ctx)
+    except core.MachineryError:
+        raise
+    except Exception as ex:  # noqa
+        ctx.model_drift(f"MMDVM client phase could not run: {type(ex).__name__}: {ex}")
     for key, items in sorted(groups.items()):
         ctx.violation(key, f"{key}: {len(items)} frames, first {bytes(items[0]['frame']).hex()}", {"count": len(items), "first_hex": [bytes(x["frame"]).hex() for x in items[:3]]})
 
